@@ -105,6 +105,13 @@ class FlowGraph:
                     src = op_local(rv["a"])
                     if src is not None:
                         add |= self.ref_of.get(src, set())
+                        pl = op_place(rv["a"])
+                        lty = fn.local_ty(lhs["l"])
+                        if pl is not None and pl.get("p") and (lty.startswith("*const") or lty.startswith("*mut")) \
+                                and fn.local_ty(src).startswith("alloc::boxed::Box<"):
+                            # the raw pointer taken out of a Box (vec![..] expansion: Box::new_uninit + write through the pointer)
+                            # points to the heap value the Box local owns: a write through it is a write to that local
+                            add.add(src)
                 elif k == "agg":
                     for o in rv["ops"]:
                         src = op_local(o)
